@@ -147,8 +147,10 @@ def run(tier):
     stats = new_stats()
     neg_rejected = 0
     total_local = 0
-    # quick cfg: with TLC's action coverage (anti-vacuity); thorough cfg: the larger case set (same actions), then
-    # the repaired design (time backend with every form) must have no counter-example without the deviation switch
+    # quick cfg: with TLC's action coverage (anti-vacuity); thorough cfg: the larger case set (same actions).  Both run
+    # the design as the code is (Dev_h41 = FALSE since the fix: commit for the time backend: every form parses, no
+    # counter-example); then, thorough only, the repaired defect seeded back (MC_Dates_seeded: the model must deviate
+    # exactly on time x every form but the full one - ParseRefines/Deviates)
     runs = [("MC_Dates_quick.cfg", True)] + ([("MC_Dates_thorough.cfg", False)] if thorough else [])
     for cfg, cov in runs:
         r = tlc("MC_Dates.tla", cfg, workers=16 if thorough else 4, coverage=cov, timeout=3000,
@@ -205,7 +207,7 @@ def run(tier):
                 raise vlib.ToolError("replay negative control not rejected")
     chk.exhaustive = True
     if thorough:
-        rr = tlc("MC_Dates.tla", "MC_Dates_repaired.cfg", workers=16, timeout=3000, name="MC_Dates_repaired")
+        rr = tlc("MC_Dates.tla", "MC_Dates_seeded.cfg", workers=16, timeout=3000, name="MC_Dates_seeded")
         chk.add_tlc(rr)
     # ---------------------------------------------------------------- (V)
     n = 4000 if thorough else 300
